@@ -966,6 +966,9 @@ func (r *runner) exec(op aop) {
 	desc := fmt.Sprintf("step %d: %s on %s(%s) signer=%s class=%s via=%s | authority=%s creator=%q ex=%q list=%v cp=%v allowed-clients=%v",
 		r.step, op.Op, x.ID, x.Role, s, class, via, r.m.authority(), x.Creator, x.Ex, x.List, x.CP, r.m.allowed)
 
+	if op.Op == "recover" {
+		desc += fmt.Sprintf(" | subject=%s substitute=%s", r.R.ID, r.U.ID)
+	}
 	r.count(op.Op, class, ok)
 	r.rec.Add("requests", 1)
 	r.rec.Add("via/"+via, 1)
